@@ -169,12 +169,34 @@ func runC21(rec *kit.Recorder, c c21Case) error {
 					}
 					for _, s := range e.built.Shards {
 						o := opts
+						before, wasDone := 0, false
+						if p, ok := pc.(*pollCtx); ok {
+							p.mu.Lock()
+							before, wasDone = p.polls, p.done
+							p.mu.Unlock()
+						}
 						res, err := s.Search(pc, q, &o)
 						if err != nil {
 							serr = err
 							return nil
 						}
 						files = append(files, res.Files...)
+						// "finishes promptly": a shard search looks at the
+						// context before every document, so after the
+						// cancellation (the k-th observation) it evaluates no
+						// further document
+						if p, ok := pc.(*pollCtx); ok {
+							p.mu.Lock()
+							nowDone := p.done
+							p.mu.Unlock()
+							budget := p.k - before
+							if wasDone {
+								budget = 0
+							}
+							if nowDone && res.Stats.FilesConsidered > budget {
+								return kit.Fail("not-prompt", "search %s with %+v: the context was cancelled at its observation %d (%d had been made before this shard), yet the shard went on to evaluate %d documents", q, l, p.k, before, res.Stats.FilesConsidered)
+							}
+						}
 					}
 					return nil
 				})
